@@ -54,7 +54,12 @@ ValidCell(w) ==
 
 -----------------------------------------------------------------------------
 \* word <-> abstract cell
-DigitsOf(w) == [p \in 1..Res(w) |-> Digit(w, p)]
+\* (sequences are built with tuple operators, never as lazily evaluated function constructors:
+\*  TLC keeps [i \in S |-> e] unevaluated and chains of such closures overflow its stack)
+AllDigits(w) == << (w[2] \div 4096) % 8, (w[2] \div 512) % 8, (w[2] \div 64) % 8, (w[2] \div 8) % 8, w[2] % 8,
+                  (w[3] \div 4096) % 8, (w[3] \div 512) % 8, (w[3] \div 64) % 8, (w[3] \div 8) % 8, w[3] % 8,
+                  (w[4] \div 4096) % 8, (w[4] \div 512) % 8, (w[4] \div 64) % 8, (w[4] \div 8) % 8, w[4] % 8 >>
+DigitsOf(w) == SubSeq(AllDigits(w), 1, Res(w))
 CellOf(w) == [r |-> Res(w), b |-> Bc(w), d |-> DigitsOf(w)]
 
 Group(ds, lo) ==   \* the 15-bit group holding positions lo..lo+4, 7 beyond the resolution
